@@ -1,6 +1,7 @@
 """Seeded input generators shared by the checks (phreeqc.dat vocabulary unless told otherwise).
 All randomness comes from the random.Random passed in."""
 import math
+import re
 
 MAJOR = ["Na", "K", "Ca", "Mg", "Cl", "S(6)", "C(4)"]
 MINOR = ["Si", "Sr", "Ba", "Fe", "Mn", "Al", "F", "Li", "Br", "B", "N(5)", "P", "Zn"]
@@ -499,13 +500,25 @@ def rich_state(rng, ncells=None, allow=None):
             elif k == "ss":
                 t += solid_solution(rng, c)
             elif k == "kin":
-                t += kinetics(rng, c)
+                kt = kinetics(rng, c)
+                if rng.random() < 0.3:
+                    # explicit list of times, long enough to be wrapped over several lines by DUMP
+                    ts = sorted(loguni(rng, 1e2, 1e4) for _ in range(rng.randint(6, 9)))
+                    kt = re.sub(r" -steps [^\n]*", " -steps " + " ".join(fmt(x) for x in ts), kt)
+                t += kt
             elif k == "react":
-                t += reaction(rng, c)
+                # one case in three: more step amounts than fit on one line of the DUMP text
+                t += reaction(rng, c, steps=(" ".join(fmt(loguni(rng, 0.05, 3)) for _ in range(rng.randint(6, 14))) + " mmol") if rng.random() < 0.35 else None)
             elif k == "temp":
-                t += "REACTION_TEMPERATURE %d\n %s\n" % (c, fmt(rng.choice([20, 35, 50])))
+                if rng.random() < 0.3:
+                    t += "REACTION_TEMPERATURE %d\n %s\n" % (c, " ".join(fmt(round(rng.uniform(10, 60), 1)) for _ in range(rng.randint(6, 12))))
+                else:
+                    t += "REACTION_TEMPERATURE %d\n %s\n" % (c, fmt(rng.choice([20, 35, 50])))
             elif k == "pres":
-                t += "REACTION_PRESSURE %d\n %s\n" % (c, fmt(rng.choice([1, 3, 10])))
+                if rng.random() < 0.3:
+                    t += "REACTION_PRESSURE %d\n %s\n" % (c, " ".join(fmt(round(rng.uniform(1, 20), 1)) for _ in range(rng.randint(6, 12))))
+                else:
+                    t += "REACTION_PRESSURE %d\n %s\n" % (c, fmt(rng.choice([1, 3, 10])))
             elif k == "mix":
                 t += "MIX %d\n %d %s\n %d %s\n" % (c, c, fmt(rng.uniform(0.3, 1)), rng.randint(1, c), fmt(rng.uniform(0.1, 0.7)))
         if "eq" in kinds and "gas" in kinds:
